@@ -78,7 +78,10 @@ def run(chk):
     vlib.tlc_expect_violation("ReplayEpochs", "ReplayEpochs.mc.wipe.cfg", "AtMostOnce", timeout=300)
     gen2 = vlib.tlc_generate("ReplayEpochs", "ReplayEpochs.gen.%s.cfg" % t, timeout=1500)
     chk.add_tlc("gen.epochs", gen2)
-    ops = [dict(s, ver="13") for s in gen2.printed]
+    # deeper in epochs (three key updates, fewer records): a record replayed after SEVERAL further key updates
+    gen3 = vlib.tlc_generate("ReplayEpochs", "ReplayEpochs.gendeep.%s.cfg" % t, timeout=1500)
+    chk.add_tlc("gen.epochs.deep", gen3)
+    ops = [dict(s, ver="13") for s in gen2.printed] + [dict(s, ver="13") for s in gen3.printed]
     if len(ops) > 60000:
         import random
         ops = random.Random(chk.seed).sample(ops, 60000)
